@@ -246,6 +246,8 @@ APP_EXIT_ROOTS = [
 
 
 def run(ctx: Ctx) -> None:
+    if getattr(ctx, "_depth", 0) >= 2:
+        return  # alias of an alias: not followed (breaks import cycles between rule modules)
     repo = ctx.repo
     ctx.rule("C04.R1", "escape-freedom: no exception class from the primitive-raiser tables (explicit raises, strict decodes of peer bytes, unguarded peer-keyed lookups, possibly-unbound locals, library raisers) escapes a task root: connection handler, HTTP/2 send task, idle timer, ping task, application-exit path, transport write path", floor=8)
     ctx.rule("C04.R3", "library signature conformance: every call into h11 / h2 / wsproto / priority binds against the installed library's signature (a mismatch is a guaranteed TypeError at that site)", floor=40)
